@@ -164,9 +164,49 @@ class Sub:
     def call(self):
         from cobyqa.subsolvers import (cauchy_geometry, constrained_tangential_byrd_omojokun, normal_byrd_omojokun,
                                        spider_geometry, tangential_byrd_omojokun)
+        from ..fuel import Fuel
 
-        hp = lambda v: self.H @ v
-        cv = lambda v: float(v @ self.H @ v)
+        # Termination.  Deterministic fuel, first line: the Hessian-product / curvature callbacks are
+        # counted (a solver makes a handful per iteration and at most a few hundred iterations); second
+        # line, for loops that make no callback: a SIGALRM watchdog, whose hit is replayed under a
+        # counter of the Python calls made inside cobyqa (sys.settrace), which gives the verdict.
+        import signal
+        from ..fuel import Fuel, FuelExhausted
+
+        def alarm(signum, frame):
+            raise TimeoutError()
+
+        old = signal.signal(signal.SIGALRM, alarm)
+        signal.alarm(20)
+        try:
+            return self._call()
+        except TimeoutError:
+            signal.alarm(0)
+            return Fuel(2_000_000).run(self._call)
+        finally:
+            signal.alarm(0)
+            signal.signal(signal.SIGALRM, old)
+
+    def _call(self):
+        from cobyqa.subsolvers import (cauchy_geometry, constrained_tangential_byrd_omojokun, normal_byrd_omojokun,
+                                       spider_geometry, tangential_byrd_omojokun)
+        from ..fuel import FuelExhausted
+
+        count = [0]
+
+        def tick():
+            count[0] += 1
+            if count[0] > 20000:
+                raise FuelExhausted()
+
+        def hp(v):
+            tick()
+            return self.H @ v
+
+        def cv(v):
+            tick()
+            return float(v @ self.H @ v)
+
         with np.errstate(all="ignore"):
             if self.solver == "tangential":
                 return tangential_byrd_omojokun(self.g.copy(), hp, self.xl.copy(), self.xu.copy(), self.delta, False,
@@ -261,8 +301,13 @@ def run_case(spec):
     if sub.row_ratio() > 1e12:
         out.label("row-ratio>1e12(unclaimed)")
         return out
+    from ..fuel import FuelExhausted
     try:
         s = sub.call()
+    except FuelExhausted:
+        out.fail("C15.fuel/" + sub.solver, "%s does not return (more than 20000 Hessian-product / curvature "
+                 "evaluations, or 2e6 function calls inside cobyqa)" % sub.solver)
+        return out
     except Exception as exc:
         out.fail("C15.exc/%s/%s" % (sub.solver, type(exc).__name__), "%s raised %s: %s" % (sub.solver, type(exc).__name__, exc))
         return out
